@@ -135,6 +135,23 @@ RES["atom"] = [("atom", "C"), ("self", "O"), ("np", "N")]
 RES["DA"] = [("P", "P"), ("O5'", "O"), ("C5'", "C"), ("H5'", "H"), ("H5''", "H"), ('N"9', "N"), ("C\\1", "C"), ("H1", "H")]
 
 
+# residues / segments / atoms whose lower-case names START WITH a keyword or operator spelling (to, and, or, not, in, eq,
+# lt, ge, gt): as bare members of an implicit list they are plain strings (Keyword matching has word boundaries)
+PREFIX_RES = [("ben", "solv"), ("tol", "top"), ("top", "tol"), ("andy", "ands"), ("oral", "nots"), ("note", "orx"), ("inx", "eqs"),
+              ("eqx", "lts"), ("ltx", "A"), ("gex", "B"), ("tors", "solv")]
+PREFIX_ATOMS = [("to1", "C"), ("tor", "C"), ("CA", "C"), ("andx", "C"), ("orb", "C"), ("nota", "C"), ("inb", "C"), ("gt1", "C")]
+for _rn, _seg in PREFIX_RES:
+    RES[_rn] = PREFIX_ATOMS
+PREFIX_WORDS = {"resname": [r for r, _ in PREFIX_RES], "segment_id": sorted({g for _, g in PREFIX_RES}), "name": [a for a, _ in PREFIX_ATOMS]}
+# the members starting with "to" are inside the model's alphabet ("to" is no operator): these strings MUST match the model
+TO_WORDS = ["resname ben tol", "resname tol ben", "resname tol", "resname ben tol top", "resn ben tol", "segname solv top",
+            "segname top solv", "segment_id solv tol", "segment_id tol top solv", "name to1 tor", "name CA tor", "name CA tor to1",
+            "resname ben tol and name CA", "not resname ben tol", "resname ben 'tol'", "resname ben to tol", "resname ben to top",
+            "name to1 to tor", "resname ben too", "resname ben total tol", "resname tors tol", "(resname ben tol) or segname solv top",
+            "resname == tol", "tol == resname", "resname != top", "name tor top to1 and resname ben tol", "segname tol",
+            "resname tol to tors", "name tor", "element tol C", "resname ben tol or name to1 tor"]
+
+
 def res_atoms(rn):
     if rn in RES:
         return RES[rn]
@@ -172,7 +189,9 @@ def fixed_topologies():
                         [("HOH", 9, ""), ("NA", -5, "")]])
     collide = topo_spec([[("re", 1, "atom"), ("atom", 2, "re")], [("ALA", 1, "self"), ("HOH", 3, "atom")]])
     primes = topo_spec([[("DA", 1, "N"), ("DA", 2, "N")], [("ALA", 3, "A"), ("HOH", 4, "")]])
-    return [mixed, allprot, solvent, small, signed, collide, primes]
+    prefixes = topo_spec([[(rn, i % 3 + 1, seg) for i, (rn, seg) in enumerate(PREFIX_RES[:6])],
+                          [(rn, i + 1, seg) for i, (rn, seg) in enumerate(PREFIX_RES[6:])]])
+    return [mixed, allprot, solvent, small, signed, collide, primes, prefixes]
 
 
 def residue_topologies(rng, quick):
@@ -190,7 +209,7 @@ def residue_topologies(rng, quick):
 
 
 def random_topology(rng):
-    names = [n for n in RES if n not in ("re", "atom", "DA")]
+    names = [n for n in RES if n not in ("re", "atom", "DA") and n not in PREFIX_WORDS["resname"]]
     chains = []
     for _ in range(rng.randint(1, 3)):
         ch = []
@@ -1250,6 +1269,8 @@ def build_cases(ctx):
         add(s_, "quoted", topo=rng.choice([0, 5]))
     for s_ in ESCAPES:
         add(s_, "escapes", topo=6)
+    for s_ in TO_WORDS:
+        add(s_, "to_words", topo=7)
     for s_ in literal_chain_cases(rng, quick):
         add(s_, "malformed", malformed="literal_in_chain")
     for s in IMPL_ONLY:
@@ -1345,6 +1366,20 @@ def run_meta(ctx, specs, n):
     specs = list(specs) + [std]
     for attr, lhs in (("protein_std", "protein"), ("backbone_std", "backbone"), ("water", "water")):
         checks.append({"topo": len(specs) - 1, "kind": "naive", "lhs": lhs, "attr": attr, "op": "truth", "value": None})
+    # implicit lists whose members start with keyword / operator spellings (model-free: direct attribute comparison)
+    specs.append(fixed_topologies()[7])
+    for attr, ws in PREFIX_WORDS.items():
+        for kw in {"resname": ["resname", "resn"], "segment_id": ["segment_id", "segname"], "name": ["name"]}[attr]:
+            pairs = [(a, b) for a in ws for b in ws if a != b]
+            if ctx.tier == "quick":
+                pairs = [(a, b) for a, b in pairs if b.startswith("to")] + ctx.rng.sample(pairs, min(12, len(pairs)))
+            for a, b in pairs:
+                checks.append({"topo": len(specs) - 1, "kind": "naive", "lhs": "%s %s %s" % (kw, a, b), "attr": attr, "op": "in",
+                               "value": [a, b]})
+            for _ in range(4 if ctx.tier == "quick" else 30):
+                vs = ctx.rng.sample(ws, 3)
+                checks.append({"topo": len(specs) - 1, "kind": "naive", "lhs": "%s %s" % (kw, " ".join(vs)), "attr": attr, "op": "in",
+                               "value": vs})
     out = ctx.run_impl("select_impl.py", {"mode": "meta", "topologies": specs, "checks": checks})
     for b in out["bad"][:25]:
         ctx.fail("Topology.select violates %s" % {"and": "and = intersection", "or": "or = union", "not": "not = complement",
